@@ -216,6 +216,8 @@ def _expand_partial_output(partial, sl_map, output_unroll_info):
     if not partial.struct.t:
         return partial  # empty tensor: nothing to expand
 
+    # output_unroll_info refers to user-facing axes; resolve a pending (lazy) transposition first
+    partial = partial.consume_transpose()
     config = partial.config
     backend = config.backend
     nsym = config.sym.NSYM
